@@ -342,12 +342,13 @@ Proof.
     + unfold ms. apply Forall_forall. intros m Hm. apply in_map_iff in Hm as (p' & <- & Hin).
       destruct (single_affine_nets e W Esa p' Hin) as [b Hnet].
       destruct (Hp p' Hin) as [Hc Hlen]. cbv zeta in Hc, Hlen.
-      unfold pair_ev, pair_eval. cbn [fst]. rewrite Hnet in *. cbn [run fst snd] in *.
+      unfold pair_ev, pair_eval. cbn [fst]. change (QcO false) with QcX.
+      revert Hc Hlen. rewrite Hnet. cbn [run fst snd]. intros Hc Hlen.
       destruct Hc as (HW & Hd & _ & Hb & (Hyx & _)).
       intros c Hc. cbn [bw bw_layer].
       assert (Hn : e_nout e = length W).
-      { rewrite <- Hlen, Hyx. unfold aff. rewrite map2_length by (symmetry; exact Hb). reflexivity. }
-      rewrite Hn, Hd. apply taff_onehot_Qc; [rewrite <- Hs; exact HW | rewrite <- Hn; exact Ht].
+      { rewrite <- Hlen. unfold aff. rewrite map2_length by (symmetry; exact Hb). reflexivity. }
+      rewrite Hn, Hd. apply taff_onehot_Qc; [exact HW | rewrite Hn in Ht; exact Ht].
 Qed.
 
 Theorem spec05_on_model exs :
@@ -355,4 +356,26 @@ Theorem spec05_on_model exs :
 Proof.
   intros H. rewrite Forall_forall in H. unfold spec_ok05, model. cbn [c_ex c_rounded].
   apply all2_map_r. intros e Hin. apply ex05_on_model. apply H. exact Hin.
+Qed.
+
+(* ---- decidable scope *)
+Lemma scope05b_ok e : scope05b e = true -> scope05 e.
+Proof.
+  unfold scope05b, scope05. intros H.
+  apply andb_true_iff in H as [H H5]. apply andb_true_iff in H as [H H4].
+  apply andb_true_iff in H as [H H3]. apply andb_true_iff in H as [H1 H2].
+  apply (list_eqb_sound _ Qc_eq_bool_correct) in H1. apply Nat.eqb_eq in H2. apply Nat.ltb_lt in H4.
+  rewrite forallb_forall in H5.
+  split; [eexists; exact H1|]. split; [exact H2|].
+  split; [intros E; rewrite E in H3; discriminate|]. split; [exact H4|].
+  apply Forall_forall. intros p Hp. specialize (H5 p Hp). unfold scope_pair05b in H5. unfold scope_pair05.
+  cbv zeta in *. apply andb_true_iff in H5 as [G1 G2]. apply Nat.eqb_eq in G2. apply chainb_ok_Qc in G1.
+  split; assumption.
+Qed.
+
+Theorem spec05_on_model_b exs :
+  forallb scope05b exs = true -> spec_ok05 (C false exs) (model (C false exs)) = true.
+Proof.
+  intros H. apply spec05_on_model. apply Forall_forall. intros e He. apply scope05b_ok.
+  rewrite forallb_forall in H. apply H. exact He.
 Qed.
